@@ -1,6 +1,7 @@
 #!/bin/sh
-# Offline setup after a fresh restore: build the Lean project (model, proofs, driver) and the
-# Rust harness against /repo. Everything comes from files on disk.
+# Offline setup after a fresh restore: build the Lean project (model, proofs, driver), the Rust
+# harness against /repo, the auto-trait crate and the muxide binary. Everything comes from files
+# on disk.
 set -e
 cd "$(dirname "$0")"
 export CARGO_NET_OFFLINE=true
@@ -8,4 +9,7 @@ mkdir -p .cache/tmp evidence/replay
 (cd lean && lake build Muxide Driver driver)
 cp /repo/Cargo.lock harness/Cargo.lock
 (cd harness && cargo build --offline)
+cp /repo/Cargo.lock harness-autotraits/Cargo.lock
+(cd harness-autotraits && CARGO_TARGET_DIR=../.cache/autotraits-target cargo check --offline)
+cargo build --offline --bin muxide --manifest-path /repo/Cargo.toml --target-dir .cache/muxide-target
 echo setup-ok
